@@ -661,8 +661,11 @@ func (t *tailBuffer) String() string { t.mu.Lock(); defer t.mu.Unlock(); return 
 func fatalSummary(text string) string {
 	lines := strings.Split(text, "\n")
 	for i, l := range lines {
-		if strings.HasPrefix(l, "fatal error:") || strings.HasPrefix(l, "panic:") || strings.HasPrefix(l, "runtime: goroutine stack exceeds") {
+		if strings.HasPrefix(l, "fatal error:") || strings.HasPrefix(l, "panic:") || strings.HasPrefix(l, "runtime: goroutine stack exceeds") || strings.HasPrefix(l, "WARNING: DATA RACE") {
 			end := i + 14
+			if strings.HasPrefix(l, "WARNING: DATA RACE") {
+				end = i + 34
+			}
 			if end > len(lines) {
 				end = len(lines)
 			}
